@@ -16,12 +16,20 @@ func (server *RunningJob) AwaitStop() {
 func SpawnJob(start func(), shutdown func()) RunningJob {
 	stop := make(chan struct{})
 	closed := make(chan struct{})
+	finished := make(chan struct{})
 	go func() {
 		<-stop
 		shutdown()
+		// start may still be on its way out: a server whose listener was opened while
+		// the stop was being processed closes it before returning. Wait for that, so
+		// that the addresses are free once closed is signalled.
+		<-finished
 		close(closed)
 	}()
-	go start()
+	go func() {
+		start()
+		close(finished)
+	}()
 	return RunningJob{stop: stop, closed: closed}
 }
 
